@@ -11,6 +11,8 @@ CLAIMED = {
    note=NOTE + " CPython's tokenizer and ast.literal_eval on one atom are not modelled (observed / oracle table); soundness (rejection of every non-literal) is checked by the correspondence and the near-miss stream, not proved.", design="5/C02"),
  'C03': dict(category='translation_validation', text="Executable Gallina model of the statement parser (bindings, macro form, blocks, four import forms, includes, selector adjacency re-check) compared with the implementation on generated statement lists rendered in two independent layouts plus a malformed stream (incl. continuation-aligned scoped names); independent predicate: both layouts yield exactly the generated statements. Proved in Coq: accepted scoped names are spelled by adjacent tokens and match the pattern (never repaired), a detached separator is never accepted, key splitting inverts joining. The full statement round-trip over all layouts is not proved, hence translation validation.",
    note=NOTE + " CPython's tokenizer is not modelled.", design="5/C03"),
+ 'C13': dict(category='translation_validation', text="PARTIAL. Proved in Coq: the registration state machine (a rejected registration changes nothing; an accepted one writes exactly one entry last and follows the return conventions of configurable / register / external_configurable; locked / duplicate-outside-interactive / invalid name or module are rejected; instance-class decision). Model tied to /repo by generated registration sequences over 11 callable / class shapes x 3 APIs x scoped / unscoped (outcome class and registry keys after every op). Checked on the implementation only (CPython's type machinery is not modelled): direct calls of the original receive nothing while registry handles inject, name / doc / signature / module preserved, subclass relation, type(instance) is the original class, pickling, Class.method addressing.",
+   note=NOTE + " Partial: transparency of the wrappers is observed, not proved.", design="5/C13"),
  'C14': dict(category='translation_validation', text="Executable Gallina model of parse_config_file / include handling (location-major, reader-minor resolution, absolute names, IOError, returned include/import tree) and of parse_config_files_and_bindings, compared with the implementation on generated file universes (1-4 locations x 1-3 readers, copies of one name with different contents, missing files, conflicting bindings around includes), the entry points being called with their defaults omitted; independent oracle: a fresh gin parsing the harness's own textual flattening, plus which physical file each instrumented reader opened.",
    note=NOTE + " os.path / open / importlib are not modelled (in-memory readers + per-case temp dir). The in-place-inclusion theorem over the model is not proved yet.", design="5/C14"),
  'C15': dict(category='translation_validation', text="Executable Gallina model of _should_skip, the parser delegate's placeholder rule and the three skip sites, compared with the implementation on generated texts x every form of skip_unknown; independent oracle: a statement-level reference interpreter written from the property text; placeholders are additionally required to raise on use and at finalize.",
@@ -35,6 +37,8 @@ CLAIMED = {
    note=NOTE, design="5/C11"),
  'C12': dict(text="Coq theorems over the Gin-machine: locked => every mutation raises and changes nothing; unlock_config restores the lock on every exit path; finalize atomicity, finalize-twice, hook-conflict rejection for any two spellings, built-in hooks; correspondence on generated histories + an independent lock automaton written from the property text.",
    note=NOTE + " finalize is modelled with an empty active scope.", design="5/C12"),
+ 'C17': dict(category='translation_validation', text="PARTIAL. Model of the proxy's attribute resolution (type-level data descriptor before instance dict before __getattr__) over the measured slot table of each class; proved: with the repaired code every public attribute reads the same, instance-dict attributes were always forwarded, non-Exception exceptions pass through, and a refutation for the code before the repair. Tied to /repo by raising EVERY builtin exception class (enumerated at run time) and generated user classes at depths 1-3 and inside reference evaluation; checked on the implementation: same class (isinstance, name, module), traceback reaches the raising frame, message extended, every public attribute equal.",
+   note=NOTE + " Partial: CPython's constructors and exception struct layouts are measured, not modelled.", design="5/C17"),
  'C18': dict(text="Coq theorems over an interleaving semantics with arbitrary schedules, thread counts and programs: mutual exclusion invariant, no call or read ever fails because of another thread, every completed read is a snapshot of the record, look-ups in the final record are schedule-independent (= sequential), singletons are constructed at most once per name and every use receives that object; refutation theorem with a concrete schedule for the original unlocked singleton_value and a sanity theorem that a read can fail without the lock. Tied to /repo by REAL threads driven deterministically at source-line granularity (sys.settrace tracer, preemption lines taken from the AST of the current gin/config.py, cooperative lock wrappers): exceptions per thread, every read text parses, final record vs a sequential run, constructions and identities per singleton; the model is compared on the schedule-independent observations.",
    note=NOTE + " Partial on granularity: atomic steps are source lines; bytecode-level interleavings and CPython dict internals are outside the model.", design="5/C18"),
  'C20': dict(text="Coq theorems: clear_config is total and yields an empty store / operative record / singleton cache, an unlocked config and the same registry, and after ANY history from any registrations keeps every constant; refutation theorem for the code before the repair. Correspondence on generated histories + comparison with a freshly imported gin given the same registrations.",
